@@ -171,6 +171,39 @@ def r5(src, counts):
 
 
 def r6(src, counts):
+    """`EXPR.map_err(path::Variant)?` -> `(match EXPR { Ok(v) => v, Err(e) => return Err(path::Variant(e)) })`:
+    the error constructor becomes visible to the verifier.  Dropped: the identity `From<Error> for Error`
+    conversion that `?` applies to an error that already has the function's error type.
+    Any other `.map_err(path)` becomes a closure."""
+    m = mask(src)
+    out = []
+    last = 0
+    for mo in re.finditer(r'\.map_err\(((?:\w+::)+[A-Z]\w*)\)\?', m):
+        # start of the receiver expression: scan back to `=`, `;`, `{`, `}` at depth 0
+        i = mo.start() - 1
+        depth = 0
+        while i >= 0:
+            c = m[i]
+            if c in ')]':
+                depth += 1
+            elif c in '([':
+                if depth == 0:
+                    break
+                depth -= 1
+            elif depth == 0 and c in '=;{}':
+                break
+            i -= 1
+        st = i + 1
+        while m[st].isspace():
+            st += 1
+        if st < last:
+            continue
+        out.append(src[last:st])
+        out.append('(match %s { Ok(ok_value) => ok_value, Err(err_value) => return Err(%s(err_value)) })' % (src[st:mo.start()], mo.group(1)))
+        last = mo.end()
+        counts['R6.map_err_try'] += 1
+    out.append(src[last:])
+    src = ''.join(out)
     def rep(mo):
         counts['R6.map_err_path'] += 1
         return '.map_err(|e| %s(e))' % mo.group(1)
